@@ -13,6 +13,10 @@ VERIF = os.path.dirname(os.path.dirname(os.path.abspath(__file__)))
 REPO = os.environ.get("VERIF_REPO", "/repo")
 OUT = os.path.join(VERIF, "out")
 EVID = os.path.join(VERIF, "evidence")
+if os.environ.get("VERIF_OUT_SUFFIX"):
+    # trial runs against a scratch tree (seeded changes): keep their replay files and evidence apart from the registered ones
+    OUT = os.path.join(VERIF, "out", "trials", os.environ["VERIF_OUT_SUFFIX"])
+    EVID = os.path.join(OUT, "evidence")
 KNOWN = os.path.join(VERIF, "known_findings.jsonl")
 
 EXIT_OK, EXIT_VIOLATION, EXIT_HARNESS = 0, 1, 3
@@ -70,6 +74,15 @@ def load_known(prop):
         rec = json.loads(line)
         if rec.get("property") != prop:
             continue
+        if rec.get("key_list"):
+            # exact counterexample keys of this finding, one per line "<finding id>\t<key>" in a committed file
+            rec["exact"] = set()
+            for kl in open(os.path.join(VERIF, rec["key_list"])):
+                kl = kl.rstrip("\n")
+                if kl and not kl.startswith("#"):
+                    fid, _, k = kl.partition("\t")
+                    if fid == rec["id"]:
+                        rec["exact"].add(k)
         (fixed if rec.get("status") == "fixed" else open_).append(rec)
     return open_, fixed
 
@@ -79,6 +92,8 @@ def match_known(open_findings, key: str):
     import re
 
     for f in open_findings:
+        if key in f.get("exact", ()):
+            return f
         for pat in f.get("keys", []):
             if re.fullmatch(pat, key):
                 return f
@@ -176,6 +191,27 @@ class Report:
             self.known_hits.setdefault(f["id"], []).append(key)
             return
         self.violations.append((key, path, summary))
+
+    def counterexamples(self, items):
+        """Replay many counterexamples concurrently (each in its own clean interpreter), then classify them in order."""
+        from concurrent.futures import ThreadPoolExecutor
+
+        paths = []
+        for key, payload, summary in items:
+            self.nreplay += 1
+            paths.append(write_replay(self.prop, self.nreplay, payload))
+        with ThreadPoolExecutor(ncpu()) as ex:
+            outs = list(ex.map(run_replay, paths))
+        for (key, payload, summary), path, (ok, out) in zip(items, paths, outs):
+            f = match_known(self.open_known, key)
+            if ok is None:
+                self.harness_errors.append(f"replay failed for {key}: {out[-400:]}")
+            elif not ok:
+                self.unreproduced.append((key, path, out[-300:]))
+            elif f is not None:
+                self.known_hits.setdefault(f["id"], []).append(key)
+            else:
+                self.violations.append((key, path, summary))
 
     def finish(self, extra_lines=()):
         for fid, keys in sorted(self.known_hits.items()):
